@@ -317,19 +317,13 @@ theorem lp_access (e : Ast) (lpe : LP e) (hlit : isLit e = false) (t : Ast) (rt 
     cases hu : isUn e with
     | false => simp
     | true => simp [needsParen_postC_of_un hu]
-  have hc3 : ∀ trs, lower (spineAt e postC).head (pendTrails (spineAt e postC).pend ++ trs)
-      = some (applyTrail e trs) ∨ (trs ≠ [] ∧ False) := by
+  have hc3' : ∀ trs, lower (spineAt e postC).head (pendTrails (spineAt e postC).pend ++ trs)
+      = some (applyTrail e trs) := by
     intro trs
-    left
     rw [lpe.c3w postC trs (by rcases hrecv with h | ⟨_, h⟩ <;> simp [h])]
     rcases hrecv with h | ⟨h, _⟩
     · simp [h]
     · cases hp : needsParen e postC <;> simp [deep_of_not_un h]
-  have hc3' : ∀ trs, lower (spineAt e postC).head (pendTrails (spineAt e postC).pend ++ trs)
-      = some (applyTrail e trs) := by
-    intro trs; rcases hc3 trs with h | ⟨_, h⟩
-    · exact h
-    · exact absurd h id
   cases hpe : (spineAt e postC).pend with
   | nil =>
     have hb : bare t = ⟨.binary .Dot (spineAt e postC).head r, (spineAt e postC).htoks ++ [.op .Dot, rt], []⟩ := by
